@@ -36,7 +36,7 @@ def main():
     applies = rc == 0
     ran.append({"cmd": "git apply patch (worktree)", "ok": applies, "out": out[-300:]})
     rc1, out1 = sh("cargo test --offline --lib 2>&1 | grep -E '^test result|FAILED|error' | head -5; cargo test --offline --doc 2>&1 | grep -E '^test result|FAILED|error' | head -5", cwd=wt)
-    suite_pass = out1.count("test result: ok") >= 2 and "FAILED" not in out1 and "error" not in out1
+    suite_pass = out1.count("test result: ok") >= 2 and "FAILED" not in out1 and "error:" not in out1 and "error[" not in out1
     ran.append({"cmd": "cargo test --offline --lib ; --doc (with the change)", "pass": suite_pass, "out": out1[-400:]})
     rc2, out2 = sh("cargo test --offline --test %s 2>&1 | tail -25" % demo_name, cwd=wt)
     demo_mut_fail = "FAILED" in out2 or "panicked" in out2
